@@ -712,9 +712,26 @@ class DataFrame:
     @property
     def values(self): return self.to_numpy()
 
-    def to_numpy(self, *a, **k):
+    def to_numpy(self, dtype=None, **k):
         cs = list(self.cols)
-        return ndarray([self.cols[c][i] for i in range(len(self.index)) for c in cs], (len(self.index), len(cs)))
+        out = ndarray([self.cols[c][i] for i in range(len(self.index)) for c in cs], (len(self.index), len(cs)))
+        return out.astype(dtype) if dtype is not None else out
+
+    def filter(self, items=None, like=None, regex=None, axis=None):
+        import re
+        if axis not in (None, 1, 'columns'):
+            raise ShimGap('DataFrame.filter on rows')
+        if items is not None:
+            keep = [c for c in items if c in self.cols]
+        elif like is not None:
+            keep = [c for c in self.cols if like in c]
+        elif regex is not None:
+            keep = [c for c in self.cols if re.search(regex, c)]
+        else:
+            raise TypeError('Must pass either `items`, `like`, or `regex`')
+        out = DataFrame({c: self.cols[c] for c in keep}, self.index)
+        out.dtypes = {c: self.dtypes.get(c) for c in keep}
+        return out
 
     def copy(self, deep=True): return self.__deepcopy__({})
 
@@ -797,6 +814,26 @@ class DataFrame:
             raise ShimGap('drop_duplicates(%s)' % ','.join(kw))
         src = self if subset is None else self[[subset] if isinstance(subset, str) else list(subset)]
         return self._take([i for i, b in enumerate(src.duplicated().v) if not bool(b)])
+
+    def value_counts(self, subset=None, sort=True, dropna=True, **kw):
+        if kw or subset is not None or not dropna:
+            raise ShimGap('value_counts with options')
+        rows = [[self.cols[c][i] for c in self.cols] for i in range(len(self.index))]
+        rows = [r for r in rows if not builtins.any(bool(_isnull(x)) for x in r)]      # dropna=True
+        groups = []
+        for r in rows:
+            for g in groups:
+                e = True
+                for a, b in zip(r, g[0]):
+                    e = _and(e, _same_cell(a, b))
+                if bool(e):
+                    g[1] += 1
+                    break
+            else:
+                groups.append([r, 1])
+        if sort:
+            groups.sort(key=lambda g: -g[1])
+        return Series([g[1] for g in groups], Index([tuple(g[0]) for g in groups]), 'count', int)
 
     def merge(self, o, how='inner', on=None):
         if how != 'inner' or on is None:
@@ -905,6 +942,14 @@ class _Loc:
             return self.df.cols[c][rows[1][0]]
         if isinstance(c, slice) and c == slice(None):
             return self.df._take(rows)
+        if isinstance(c, slice):
+            # label slice over the columns: both ends included, in the frame's column order
+            names = list(self.df.cols)
+            if c.step is not None:
+                raise ShimGap('loc column slice with a step')
+            i0 = names.index(c.start) if c.start is not None else 0
+            i1 = names.index(c.stop) if c.stop is not None else len(names) - 1
+            c = names[i0:i1 + 1]
         if isinstance(c, list):
             for x in c:
                 if x not in self.df.cols:
@@ -928,6 +973,10 @@ class _Loc:
         cs = c if isinstance(c, list) else [c]
         for col in cs:
             if col not in self.df.cols:
+                if len(self.df.index) == 0 and isinstance(r, slice) and not isinstance(c, list) \
+                        and not isinstance(val, (Series, ndarray, list, tuple)):
+                    # pandas refuses to create a column from a scalar on a frame without rows
+                    raise ValueError('cannot set a frame with no defined index and a scalar')
                 self.df.cols[col] = [nan] * len(self.df.index)
                 self.df.dtypes[col] = None
             if isinstance(val, Series):
